@@ -48,7 +48,9 @@ Start(st, bs, mode) ==
        IN res' = [st |-> st, bs |-> bs, mode0 |-> mode,
                   hf0 |-> IF mode = "fresh" THEN 0 ELSE 100,
                   ehlc0 |-> IF mode = "fresh" THEN 0 ELSE IF mode = "stale" THEN par.dropoff + 4 ELSE par.dropoff + 3,
-                  adj |-> ad, ens |-> ENum(adjs), T |-> TDen(adjs)]
+                  adj |-> ad, ens |-> ENum(adjs), T |-> TDen(adjs),
+                  exact |-> FloatExact([k \in DOMAIN species |-> Len(species[k].fit)], [k \in DOMAIN species |-> ad[k].penalised],
+                                       par.sig.d, adjs, LDen(o, MaxN), ENum(adjs), TDen(adjs))]
     /\ pc' = "adjusted"
     /\ UNCHANGED <<species, par>>
 
@@ -57,7 +59,7 @@ T == res.T
 
 DoCount(lost) ==
     /\ pc = "adjusted"
-    /\ LossOK(Ens, T, lost)
+    /\ LossOK(Ens, T, lost, res.exact)
     /\ LET raw == RawQuota(Ens, T, lost)
            mu == MakeUp(raw, N)
        IN res' = [lost |-> lost, raw |-> raw, q1 |-> mu.q, mk |-> mu.mk, died |-> mu.died, kept |-> Kept(mu.q)] @@ res
@@ -78,7 +80,7 @@ CaseOf(r) ==
                                          parents |-> r.adj[k].parents, pen |-> r.adj[k].penalised, young |-> r.adj[k].young]],
      T |-> r.T, e |-> r.ens,
      fc |-> [k \in DOMAIN species |-> FloorCum(r.ens, r.T, k)], bnd |-> [k \in DOMAIN species |-> Boundary(r.ens, r.T, k)],
-     lost |-> r.lost, raw |-> r.raw, q1 |-> r.q1, mk |-> r.mk, died |-> r.died, kept |-> r.kept,
+     exact |-> r.exact, lost |-> r.lost, raw |-> r.raw, q1 |-> r.q1, mk |-> r.mk, died |-> r.died, kept |-> r.kept,
      sorted |-> r.sorted, sorttie |-> SortTie(r.kept, BestOrig, Ages), mode |-> r.mode, q2 |-> r.q2, sc |-> r.sc,
      aoli2 |-> r.aoli2, hf |-> r.hf, ehlc |-> r.ehlc, taken |-> r.taken,
      coins |-> [i \in DOMAIN r.sorted |-> i \in r.coins], flips |-> [i \in DOMAIN r.sorted |-> i \in r.used]]
